@@ -109,15 +109,17 @@ Fixpoint dec_calls (fuel : nat) (l : list Z) : list call :=
       end
   end.
 
-(* input, history mode: kind :: ...; object mode: 10+kind :: n :: w :: compressed :: post :: del ::
+(* input, name mode: 30 :: character codes -> lf_name ++ [has_ap]; history mode: kind :: n :: w ::
+   compressed(0 .bin | 1 .cbin | 2 .bin with a hardware lf file next to it) :: ...; object mode: 10+kind :: n :: w :: compressed :: post :: del ::
    comp :: nshank mask :: calls *)
 Definition run (inp : list Z) : list Z :=
   match inp with
+  | 30 :: name => lf_name name ++ [enc_bool (has_ap name)]      (* name mode *)
   | kd :: n :: w :: c :: rest =>
       let n' := Z.to_nat n in
       if kd <? 10 then
         flat_map (enc_out n')
-          (ops_run (dec_kind kd) n' (Z.to_nat w) (init_fs (dec_bool c))
+          (ops_run (dec_kind kd) n' (Z.to_nat w) (if c =? 2 then init_fs_hwlf else init_fs (dec_bool c))
                     (dec_runs n' (length rest) (rest)))
       else
         match rest with
